@@ -22,7 +22,6 @@ from tqdm.auto import tqdm
 
 from pyxel.calibration import Algorithm, IslandProtocol
 from pyxel.calibration.fitting_datatree import ModelFittingDataTree
-from pyxel.calibration.util import slice_to_range
 
 if TYPE_CHECKING:
     import pygmo as pg
@@ -355,8 +354,6 @@ class ArchipelagoDataTree:
 
         # Get the target data
         if self.problem.sim_fit_range is not None:
-            slice_times, slice_rows, slice_cols = self.problem.sim_fit_range.to_slices()
-
             sim_fit_range_dct: dict[str, slice] = dict(
                 self.problem.sim_fit_range.to_dict()
             )
@@ -365,21 +362,25 @@ class ArchipelagoDataTree:
                 del sim_fit_range_dct["time"]
 
             all_data_fit_range = all_simulated_full.isel(indexers=sim_fit_range_dct)
+            # Note: The target data are selected with the 'target_fit_range'. They are
+            #       assigned by position (not aligned on the labels of the simulated data,
+            #       the result and target fit ranges can have different offsets)
             if readout.time_domain_simulation:
-                # TODO: Refactoring like this:
-                #       all_data_fit_range["target"] = self.problem.all_target_data
-                all_data_fit_range["target"] = xr.DataArray(
-                    self.problem.all_target_data,
-                    dims=["processor", "readout_time", "y", "x"],
-                    coords={
-                        "processor": range(len(self.problem.all_target_data)),
-                        "readout_time": slice_to_range(slice_times),
-                        "y": slice_to_range(slice_rows),
-                        "x": slice_to_range(slice_cols),
-                    },
-                )
+                target_dims: tuple[str, ...] = ("processor", "readout_time", "y", "x")
             else:
-                all_data_fit_range["target"] = self.problem.all_target_data
+                target_dims = ("processor", "y", "x")
+
+            target_data: np.ndarray = np.asarray(self.problem.all_target_data)
+            target_coords: dict = {"processor": range(target_data.shape[0])}
+            for dim_name, dim_size in zip(
+                target_dims[1:], target_data.shape[1:], strict=True
+            ):
+                if all_data_fit_range.sizes[dim_name] == dim_size:
+                    target_coords[dim_name] = all_data_fit_range[dim_name].to_numpy()
+
+            all_data_fit_range["target"] = xr.DataArray(
+                target_data, dims=target_dims, coords=target_coords
+            )
 
         else:
             all_data_fit_range = all_simulated_full
